@@ -966,6 +966,10 @@ class VariationalWassersteinDistance(darsia.EMD):
                 # Fetch all faces with this orientations
                 faces = self.grid.faces[orientation]
 
+                # An axis with a single cell has no inner faces
+                if len(faces) == 0:
+                    continue
+
                 # Pick the neighbouring cells (use left and right just for synonyms)
                 for i, side in enumerate(range(2)):
                     # Fetch cells and respective corners corresponding to the faces.
